@@ -6,11 +6,30 @@
 from core import *
 
 
+def _pattern(band, n):
+    """sparsity of the strict triangles of L and U: an integer band width, or 'arrow' (dense first column of L / first row of U, the
+    rest diagonal: the blocks of A are dense rank-one plus diagonal, which reaches every sub-block of the recursive kernels while
+    the Schur complements stay diagonal), or 'arrow1' (arrow plus the first sub/super-diagonal)"""
+    if band is None:
+        return n, 0
+    if band == 'arrow':
+        return 0, 1
+    if band == 'arrow1':
+        return 1, 1
+    if band == 'hub':      # arrow1 plus a dense last row of L and last column of U: every column of every triangular sub-block matters
+        return 1, 2
+    return int(band), 0
+
+
+def band_tag(band):
+    return '' if band is None else ('_' + band if isinstance(band, str) else '_band%d' % band)
+
+
 def pre_ldu(ct, n, band=None):
-    """A = L D U; lam/mu are n*n arrays of which only the strict triangles (within the band) are used"""
-    b = band if band is not None else n
-    return ('extern "C" void @R@pre(const %s* lam, const %s* del, const %s* mu, %s* A){ for(int i=0;i<%d;i++) for(int j=0;j<%d;j++){ %s s=0; int first=1; for(int k=0;k<=(i<j?i:j);k++){ if(i-k>%d || j-k>%d) continue; %s t = del[k]; if(i!=k) t = lam[i*%d+k]*t; if(j!=k) t = t*mu[k*%d+j]; if(first){ s=t; first=0; } else s = s + t; } A[i*%d+j]=s; } }'
-            % (ct, ct, ct, ct, n, n, ct, b, b, ct, n, n, n))
+    """A = L D U; lam/mu are n*n arrays of which only the strict triangles (within the sparsity pattern) are used"""
+    b, ar = _pattern(band, n)
+    return ('extern "C" void @R@pre(const %s* lam, const %s* del, const %s* mu, %s* A){ for(int i=0;i<%d;i++) for(int j=0;j<%d;j++){ %s s=0; int first=1; for(int k=0;k<=(i<j?i:j);k++){ if((i-k>%d && !(%d && k==0) && !(%d==2 && i==%d)) || (j-k>%d && !(%d && k==0) && !(%d==2 && j==%d))) continue; %s t = del[k]; if(i!=k) t = lam[i*%d+k]*t; if(j!=k) t = t*mu[k*%d+j]; if(first){ s=t; first=0; } else s = s + t; } A[i*%d+j]=s; } }'
+            % (ct, ct, ct, ct, n, n, ct, b, ar, ar, n - 1, b, ar, ar, n - 1, ct, n, n, n))
 
 
 def ldu_regions(t, n, positive=False):
@@ -24,9 +43,9 @@ def post_residual(ct, n, name='post'):
 
 
 def expect_lu(ct, n, band=None):
-    b = band if band is not None else n
-    return ('extern "C" void @R@exp(const %s* lam, const %s* del, const %s* mu, %s* L, %s* U){ for(int i=0;i<%d;i++) for(int j=0;j<%d;j++){ L[i*%d+j] = (i==j) ? (%s)1 : ((i>j && i-j<=%d) ? lam[i*%d+j] : (%s)0); U[i*%d+j] = (i==j) ? del[i] : ((i<j && j-i<=%d) ? del[i]*mu[i*%d+j] : (%s)0); } }'
-            % (ct, ct, ct, ct, ct, n, n, n, ct, b, n, ct, n, b, n, ct))
+    b, ar = _pattern(band, n)
+    return ('extern "C" void @R@exp(const %s* lam, const %s* del, const %s* mu, %s* L, %s* U){ for(int i=0;i<%d;i++) for(int j=0;j<%d;j++){ L[i*%d+j] = (i==j) ? (%s)1 : ((i>j && (i-j<=%d || (%d && j==0) || (%d==2 && i==%d))) ? lam[i*%d+j] : (%s)0); U[i*%d+j] = (i==j) ? del[i] : ((i<j && (j-i<=%d || (%d && i==0) || (%d==2 && j==%d))) ? del[i]*mu[i*%d+j] : (%s)0); } }'
+            % (ct, ct, ct, ct, ct, n, n, n, ct, b, ar, ar, n - 1, n, ct, n, b, ar, ar, n - 1, n, ct))
 
 
 # ------------------------------------------------------------------ pivot helpers under every constant permutation
